@@ -25,19 +25,11 @@ Fixpoint obs_count (o : list (lcall * nat)) (c : lcall) : nat :=
   | (d, n) :: t => (if lcall_eqb c d then n else 0) + obs_count t c
   end.
 
-(* the incompatible-QoS callbacks are repeated by the worker while the incompatible pair exists
-   (every pass of process_discovered_readers / _writers re-evaluates the unmatched pair and runs the
-   chain again): the model predicts the level, not the count *)
-Definition repeated_kind (k : kind) : bool :=
-  match k with KOIQ | KRIQ => true | _ => false end.
+Definition agree_on (calls : list lcall) (obs : list (lcall * nat)) (c : lcall) : bool :=
+  Nat.eqb (count_in calls c) (obs_count obs c).
 
-Definition agree_on (exact : bool) (calls : list lcall) (obs : list (lcall * nat)) (c : lcall) : bool :=
-  if exact || negb (repeated_kind (snd c))
-  then Nat.eqb (count_in calls c) (obs_count obs c)
-  else Bool.eqb (Nat.eqb (count_in calls c) 0) (Nat.eqb (obs_count obs c) 0).
-
-Definition agree (exact : bool) (calls : list lcall) (obs : list (lcall * nat)) : bool :=
-  forallb (agree_on exact calls obs) (calls ++ map fst obs).
+Definition agree (calls : list lcall) (obs : list (lcall * nat)) : bool :=
+  forallb (agree_on calls obs) (calls ++ map fst obs).
 
 Fixpoint phases_ok (f : list ev -> list (lcall * nat) -> bool)
          (ps : list (list ev)) (os : list (list (lcall * nat))) : bool :=
@@ -47,43 +39,17 @@ Fixpoint phases_ok (f : list ev -> list (lcall * nat) -> bool)
   | _, _ => false
   end.
 
-(* model = code: per phase, the recorded calls are the ones the coded chains produce *)
+(* model = code: per phase, the recorded calls are exactly the ones the coded chains produce
+   (callback by callback, with their multiplicity) *)
 Definition C33_model_ok (c : C33_case) : bool :=
-  phases_ok (fun p o => agree false (run_events (c_world c) p) o) (c_phases c) (c_obs c).
+  phases_ok (fun p o => agree (run_events (c_world c) p) o) (c_phases c) (c_obs c).
 
 (* the property on the implementation's output: per phase, every status change was delivered
    exactly once to the listener the rule names and nothing else was called *)
 Definition C33_oracle_ok (c : C33_case) : bool :=
-  phases_ok (fun p o => agree true (spec_events (c_world c) p) o) (c_phases c) (c_obs c).
+  phases_ok (fun p o => agree (spec_events (c_world c) p) o) (c_phases c) (c_obs c).
 
-(* known classes.  A disagreement with the rule on callback c is explained only if the observation
-   equals what the coded chains do (the model), and then by the kind of c:
-     1 DataAvailable  -> no subscriber/participant fallback      (C33-data-available-no-fallback)
-     2 PM / SM        -> un-match reaches no listener            (C33-unmatch-no-listener)
-     3 OIQ / RIQ      -> callback repeated without status change (C33-incompatible-qos-repeated) *)
-Definition explain (w : world) (p : list ev) (o : list (lcall * nat)) (c : lcall) : N :=
-  if agree_on false (run_events w p) o c then
-    match snd c with
-    | KDA => if existsb (ev_known w) p then 1%N else 0%N
-    | KPM | KSM => if existsb (ev_known w) p then 2%N else 0%N
-    | KOIQ | KRIQ => 3%N
-    | _ => 0%N
-    end
-  else 0%N.
-
-Definition phase_classes (w : world) (p : list ev) (o : list (lcall * nat)) : list N :=
-  let spec := spec_events w p in
-  map (explain w p o) (filter (fun c => negb (agree_on true spec o c)) (spec ++ map fst o)).
-
-Fixpoint all_classes (w : world) (ps : list (list ev)) (os : list (list (lcall * nat))) : list N :=
-  match ps, os with
-  | p :: ps', o :: os' => phase_classes w p o ++ all_classes w ps' os'
-  | _, _ => []
-  end.
-
-Definition C33_known (c : C33_case) : N :=
-  let l := all_classes (c_world c) (c_phases c) (c_obs c) in
-  if existsb (N.eqb 0) l then 0%N
-  else if existsb (N.eqb 1) l then 1%N
-  else if existsb (N.eqb 2) l then 2%N
-  else hd 0%N l.
+(* no known classes: the three defects once recorded here (no data-available fallback, un-match
+   without listener, repeated incompatible-QoS callbacks) are repaired in /repo
+   (8c56825, 16b74b1, 1fc584d) *)
+Definition C33_known (c : C33_case) : N := 0%N.
